@@ -205,7 +205,7 @@ pub fn run_random(seed: u64, nframes: usize, max_payload: usize) -> Vec<Value> {
     let shared = Rc::new(RefCell::new(Shared { stream, rd: 0, script: VecDeque::new(),
         policy: Some(Box::new(RandomPolicy { rng: StdRng::seed_from_u64(seed ^ 0x5eed), pend_run: 0, fails_left: 5 })),
         log: vec![], desync: None, reads: 0 }));
-    let mut reader = AsyncReader::new(Source(shared.clone()));
+    let mut reader = match crate::awrite::start_buffer(seed) { Some(b) => AsyncReader::with_buffer(Source(shared.clone()), b), None => AsyncReader::new(Source(shared.clone())) };
     reader.set_max_len(maxlen);
     let rp: *mut AsyncReader<Source> = &mut reader;
     let mut events = vec![json!({"ev":"reset","frames": frames.iter().map(|f| json!({"n":f.n,"good":f.good})).collect::<Vec<_>>(),
